@@ -259,6 +259,35 @@ func iterGraphCheck(newIter func() *IterDyn, contIDs map[ptrKey]int, seq []Pair,
 				recs = append(recs, rec{i, o})
 			}
 		}
+		// a second iterator over the same container, used in between, must not disturb this one
+		// (a cursor cached in the container or at package level would)
+		for _, o := range []Op{op("Next"), op("Prev")} {
+			if o.N == "Prev" && !it0.Rev {
+				continue
+			}
+			r := &iterRun{it: newIter(), pos: -1, seq: seq, props: props}
+			for _, po := range path {
+				if v := r.step(po); v != nil {
+					panic(fmt.Sprintf("tool error: iterator prefix %v diverged: %s", path, v.Msg))
+				}
+			}
+			other := newIter()
+			for other.Next() {
+				other.Cur()
+			}
+			if other.Rev {
+				other.Prev()
+				other.End()
+				other.Prev()
+			}
+			other.Begin()
+			other.Next()
+			if v := r.step(o); v != nil {
+				v.Msg = fmt.Sprintf("iterator call sequence %v, then a SECOND iterator over the same container is used, then %s on the first: %s", path, o, v.Msg)
+				return v
+			}
+			st.Nested["iterator_interference_checks"]++
+		}
 		if len(recs) > 4*(len(seq)+3)+50 {
 			return viol(props, "invariant", "iterator state graph does not close: more than %d states over a sequence of %d elements (cursor model has %d)", len(recs), len(seq), len(seq)+2)
 		}
